@@ -187,3 +187,27 @@ func VerifC14_CountAcrossSegments() {
 	verif_Assert(e.Count == n, "the notification carries the block count of the whole sync, however many segments it took")
 	verif_Assert(len(v.log) == n, "every block was reported once")
 }
+
+// C14 + C15: an announce-triggered sync that Close cancels is a failed
+// announce-triggered sync: exactly one notification carrying the error and the
+// announced CID reaches every registered listener before its channel is closed.
+func VerifC14_CancelledAnnouncedSyncIsNotified() {
+	chain := c01chain(2)
+	v := newLiveSub(chain, 0)
+	v.sy.gate = make(chan struct{}) // the publisher stalls: the sync waits until cancelled
+	l1, _ := v.s.OnSyncFinished()
+	l2, _ := v.s.OnSyncFinished()
+	verif_Assume(v.s.Announce(context.Background(), chain[0], v.peer) == nil)
+	verif_Quiesce() // the announce-triggered sync is in flight
+	verif_Assert(v.s.Close() == nil, "Close succeeds while an announce-triggered sync is in flight")
+	verif_Reach("closed")
+	for _, l := range []<-chan SyncFinished{l1, l2} {
+		n := 0
+		for e := range l {
+			n++
+			verif_Assert(e.Err != nil && e.Cid == chain[0] && e.PeerID == v.peer.ID && e.Count == 0, "the notification of the cancelled sync carries the error, the announced CID and the publisher")
+		}
+		verif_Assert(n == 1, "each listener gets exactly one notification for the announce-triggered sync that Close cancelled, before its channel closes")
+	}
+	verif_Assert(v.latest() == cid.Undef, "the cancelled sync records nothing")
+}
